@@ -160,8 +160,8 @@ def gen_content(ch, cfg):
     c["sigma_pow"] = ch.pick("sigma", (0, -4, 5, 0, -24, 14))             # noise rms 2**sigma_pow: also ~6e-8 and 16384
     c["offset_pow"] = None if rel is None else c["sigma_pow"] + rel
     c["slope_pow"] = ch.pick("slope", (-6, -3, -1))        # gradient images: 2**slope_pow noise rms per row (half per column)
-    nb = ch.weighted("nblank_kind", [5, 2, 1, 1, 1])                      # none|pixels|block|row|col
-    c["blank"] = ("none", "pixels", "block", "row", "col")[nb]
+    nb = ch.weighted("nblank_kind", [5, 2, 1, 1, 1, 2])                   # none|pixels|block|row|col|band
+    c["blank"] = ("none", "pixels", "block", "row", "col", "band")[nb]
     c["blank_inf"] = bool(ch.draw("blank_inf", 2)) if nb else False
     c["blank_seed"] = ch.draw("blank_seed", 1 << 16) if nb else 0
     if cfg["bitpix"] > 0 and c["sigma_pow"] not in (0, -4, 5):
@@ -211,7 +211,10 @@ def make_image(cfg, content, shift=0.0, scale=1.0):
     if content["offset_pow"] is not None:
         off = 2.0 ** content["offset_pow"] * (-1.0 if content["offset_neg"] else 1.0)
     img = (base + off + shift) * scale
-    if content["blank"] != "none":
+    if content.get("band_rows"):
+        r0, r1 = content["band_rows"]
+        img[r0:r1, :] = np.inf if content.get("blank_inf") else np.nan
+    elif content["blank"] != "none":
         bs = np.random.RandomState(content["blank_seed"])
         bad = np.inf if content["blank_inf"] else np.nan
         if content["blank"] == "pixels":
@@ -223,6 +226,10 @@ def make_image(cfg, content, shift=0.0, scale=1.0):
             img[r0:r1, c0:c1] = bad
         elif content["blank"] == "row":
             img[bs.randint(0, rows), :] = bad
+        elif content["blank"] == "band":
+            # a full-width band of blank rows (edge of a mosaic): whole stripes, halo included, can be blank
+            r0 = bs.randint(0, rows)
+            img[r0:r0 + 1 + bs.randint(0, max(1, (2 * rows) // 3)), :] = bad
         else:
             img[:, bs.randint(0, cols)] = bad
     return img
